@@ -354,7 +354,16 @@ Plan gen_mt_plan(const std::string &, Rng &rng, long long, const std::string &ti
       t.proj.ast = generate_ast(rng, gp);
       t.proj.layout.seed = rng.next(); t.proj.layout.style = (int)rng.below(2); t.proj.layout.nfiles = rng.chance(1, 2) ? 1 : (int)rng.range(2, 3); t.proj.layout.spelling = (int)rng.below(4);
       render(t.proj);
-      if (rng.chance(1, 6)) {
+      if (t.proj.files.size() > 1 && rng.chance(1, 4)) {
+        // include errors: a lost file (FILE_NOT_FOUND) and / or a file that includes its includer (RECURSIVE_INCLUDE)
+        for (auto it = t.proj.files.begin(); it != t.proj.files.end(); ++it)
+          if (it->first != t.proj.main) {
+            if (rng.chance(1, 2)) { it->second += "\ninclude \"" + t.proj.main + "\"\n"; }
+            else { t.proj.files.erase(it); }
+            break;
+          }
+        t.proj.has_ast = false;
+      } else if (rng.chance(1, 6)) {
         // a project with errors: compile messages must be deterministic too
         auto it = t.proj.files.begin();
         std::advance(it, (long)rng.below(t.proj.files.size()));
